@@ -133,6 +133,14 @@ func c10World(root string, l wsp.Layout, k c10Case) (x [][]wsp.Ring, y [][]wsp.R
 		yc[i] = (i + 1) % 2
 	}
 	ry := contentByCode(l, k.Now, c10Choices(3, 2), yc)
+	// in half of the worlds (by the first file's content) the second item is a symbolic link to a directory outside
+	// the item pattern: a matched item is an item whatever kind of directory entry it is
+	if codeParity(k.Codes[0]) == 1 {
+		(&BFile{L: l, Rings: ry}).Write(filepath.Join(root, "elsewhere-y", "a.wsp"))
+		if os.Symlink(filepath.Join("..", "elsewhere-y"), filepath.Join(root, "it", "y")) == nil {
+			return x, [][]wsp.Ring{ry}
+		}
+	}
 	(&BFile{L: l, Rings: ry}).Write(filepath.Join(root, "it", "y", "a.wsp"))
 	return x, [][]wsp.Ring{ry}
 }
@@ -371,4 +379,12 @@ func replayC10(c *fw.Ctx, raw json.RawMessage) (bool, string) {
 	}
 	sig, desc, _ := c10Eval(c, k)
 	return sig != "", desc
+}
+
+func codeParity(code []int) int {
+	n := 0
+	for _, v := range code {
+		n += v
+	}
+	return n % 2
 }
